@@ -73,6 +73,36 @@ def suite_merges(seed, tier):
         if thr != thr:
             thr = 0.5
         cases.append((crit, tol, thr, old, old_n, nom, nom_n, new, new_n))
+    # tie stream: EVEN cluster sizes with a column set in exactly half of the members (the majority vote keeps
+    # ties; n/2 * (1/n), 2k >= n and k >= n/2 are not the same computation in floating point / narrow ints);
+    # every even size up to 256 and a sample of larger ones, as the old or as the merged cluster
+    even = list(range(2, 257, 2)) + [rng.randrange(258, 3000, 2) for _ in range(40 if tier == "quick" else 400)]
+    for n in even:
+        nf = rng.choice([2, 3, 5])
+        as_old = rng.random() < 0.6
+        tot = n if as_old else n - 1
+        if tot < 1:
+            continue
+        ks = [n // 2] + [rng.choice([0, n // 2, tot, rng.randint(0, tot)]) for _ in range(nf - 1)]
+        ks = [min(k, tot) for k in ks]
+        if as_old:
+            old, old_n = ks, n
+            nom = [rng.randint(0, 1) for _ in range(nf)]
+        else:
+            # the merged cluster has n members and the first column is set in n/2 of them
+            b0 = rng.randint(0, 1)
+            old, old_n = [n // 2 - b0] + ks[1:], n - 1
+            nom = [b0] + [rng.randint(0, 1) for _ in range(nf - 1)]
+            old = [max(0, min(k, old_n)) for k in old]
+        new = [a + b for a, b in zip(old, nom)]
+        crit = rng.choice(["radius", "tolerance-radius", "tolerance-radius", "diameter", "tolerance-diameter"])
+        tol = rng.choice([0.0, 0.05]) if crit in hist.HAS_TOL else None
+        d, rc = stat_values(new, old_n + 1)
+        base = rc if "radius" in crit else d
+        thr = rng.choice([0.05, 0.3, base, float(np.nextafter(base, -1.0))])
+        if thr != thr:
+            thr = 0.3
+        cases.append((crit, tol, thr, old, old_n, nom, 1, new, old_n + 1))
     # moment-collision stream: old clusters with equal (n, sum k, sum k^2) but different
     # column counts, probed one after the other with the same criterion object
     import itertools
